@@ -1,12 +1,11 @@
 import PkgModel.Rx
-/-! GENERATED by harness/translate.py from the working tree — do not edit.
-source flags: 32  pattern sha: 1cb784c8b669 -/
+/-! GENERATED stub: the translator does not support this pattern (look-ahead). -/
 namespace Gen.NormalizedRx
 open Rx Rx.R
-def supported : Bool := true
-def nClasses : Nat := 70
-def reps : List Nat := [0, 9, 10, 33, 40, 41, 42, 43, 44, 45, 46, 48, 59, 60, 61, 62, 65, 66, 67, 68, 69, 70, 71, 72, 73, 74, 75, 76, 77, 78, 79, 80, 81, 82, 83, 84, 85, 86, 87, 88, 89, 90, 95, 97, 98, 99, 100, 101, 102, 103, 104, 105, 106, 107, 108, 109, 110, 111, 112, 113, 114, 115, 116, 117, 118, 119, 120, 121, 122, 126]
-def kinds : List Nat := [0, 34, 69, 32, 41, 40, 33, 31, 42, 29, 28, 1, 39, 36, 35, 37, 43, 44, 45, 46, 47, 48, 49, 50, 51, 52, 53, 54, 55, 56, 57, 58, 59, 60, 61, 62, 63, 64, 65, 66, 67, 68, 30, 2, 3, 4, 5, 6, 7, 8, 9, 10, 11, 12, 13, 14, 15, 16, 17, 18, 19, 20, 21, 22, 23, 24, 25, 26, 27, 38]
-def ranges : List (Nat × Nat × Nat) := [(0, 8, 0), (9, 9, 1), (10, 10, 2), (11, 13, 1), (14, 31, 0), (32, 32, 1), (33, 33, 3), (34, 39, 0), (40, 40, 4), (41, 41, 5), (42, 42, 6), (43, 43, 7), (44, 44, 8), (45, 45, 9), (46, 46, 10), (47, 47, 0), (48, 57, 11), (58, 58, 0), (59, 59, 12), (60, 60, 13), (61, 61, 14), (62, 62, 15), (63, 64, 0), (65, 65, 16), (66, 66, 17), (67, 67, 18), (68, 68, 19), (69, 69, 20), (70, 70, 21), (71, 71, 22), (72, 72, 23), (73, 73, 24), (74, 74, 25), (75, 75, 26), (76, 76, 27), (77, 77, 28), (78, 78, 29), (79, 79, 30), (80, 80, 31), (81, 81, 32), (82, 82, 33), (83, 83, 34), (84, 84, 35), (85, 85, 36), (86, 86, 37), (87, 87, 38), (88, 88, 39), (89, 89, 40), (90, 90, 41), (91, 94, 0), (95, 95, 42), (96, 96, 0), (97, 97, 43), (98, 98, 44), (99, 99, 45), (100, 100, 46), (101, 101, 47), (102, 102, 48), (103, 103, 49), (104, 104, 50), (105, 105, 51), (106, 106, 52), (107, 107, 53), (108, 108, 54), (109, 109, 55), (110, 110, 56), (111, 111, 57), (112, 112, 58), (113, 113, 59), (114, 114, 60), (115, 115, 61), (116, 116, 62), (117, 117, 63), (118, 118, 64), (119, 119, 65), (120, 120, 66), (121, 121, 67), (122, 122, 68), (123, 125, 0), (126, 126, 69), (127, 1114111, 0)]
-def rx : R := (.cat (.cat (.cls 590295801562612631552) (.star (.cls 590295801562612631552))) (.star (.cat (.cls 512) (.cat (.cls 590295801562612631552) (.star (.cls 590295801562612631552))))))
+def supported : Bool := false
+def nClasses : Nat := 1
+def reps : List Nat := [0]
+def kinds : List Nat := [0]
+def ranges : List (Nat × Nat × Nat) := [(0, 1114111, 0)]
+def rx : R := .empty
 end Gen.NormalizedRx
